@@ -1116,9 +1116,14 @@ def run(ctx):
     import concurrent.futures
     with concurrent.futures.ThreadPoolExecutor(max_workers=1) as pool:
         fut = pool.submit(ctx.cpp, "harness/c08.cpp", extra=CXX_EXTRA)
+        t0 = ctx.elapsed()
         coq_with_tables(ctx, self_test=not ctx.quick)
+        t1 = ctx.elapsed()
         mexe = ctx.extract()
+        t2 = ctx.elapsed()
         exe = fut.result()
+        ctx.note("wall: tables+proofs %.0fs (includes waiting for the shared coq lock), extraction %.0fs, "
+                 "further wait for the C++ build %.0fs" % (t1 - t0, t2 - t1, ctx.elapsed() - t2))
     stats = Stats()
     thorough = not ctx.quick
     if thorough:
